@@ -142,6 +142,20 @@ theorem dm_probabilities_exact (t : Tab) (hv : t.Valid) (hr : t.StabReal) (q : N
   · rw [projZ_eq _ _ hq, projZ_eq _ _ hq]; exact prob_det t hv hr q hq hp
 
 open Graphiq.DMH Graphiq.Hilbert in
+/-- **Forced outcomes tolerate rounding** (what the repair of D39 provides): under forced 0 / forced 1, if the two
+    probabilities the density-matrix backend *computes* are within `1e-8` of the exact `tr(ρ Π_o)` clipped at 0, its
+    `np.isclose` rule still reports the outcome of the stabilizer backend's measurement. -/
+theorem forced_outcome_tolerates_rounding (s : RunState) (hv : s.t.Valid) (hr : s.t.StabReal) (d : Det) (hd : d ≠ .prob)
+    (q : Nat) (hq : q < s.t.n) (q0 q1 : ℝ)
+    (h0 : |q0 - probOf (rho s.t.n (STab.ofTab s.t)) (projZ s.t.n q false)| ≤ 1 / 100000000)
+    (h1 : |q1 - probOf (rho s.t.n (STab.ofTab s.t)) (projZ s.t.n q true)| ≤ 1 / 100000000) :
+    (outcomeOf d q0 q1 s.script).1 = (s.measure d q).2 := by
+  rw [outcomeOf_forced_robust d hd _ _ q0 q1 s.script (probOf_tab_cases s.t hv hr q hq) h0 h1]
+  have h := measureH_tab s hv hr d q hq
+  rw [← measureH_out]
+  exact congrArg (fun x => x.2.1) h
+
+open Graphiq.DMH Graphiq.Hilbert in
 /-- the matrix the density-matrix backend returns is a pure state: Hermitian, idempotent, **trace 1** -/
 theorem dm_result_is_pure_state (ne np : Nat) (d : Det) (script : List Bool) (ops : List COp)
     (hwf : ∀ op, op ∈ ops → op.WF np) (r : HState (ne + np)) (h : dmRunH ne np d script ops = some r) :
@@ -266,6 +280,26 @@ example (d : Det) (script : List Bool) :
     ∃ s, stabRun 1 1 d script bell = some s ∧ DMH.dmRunH 1 1 d script bell = some (DMH.hstate 2 s) := by
   obtain ⟨s, hs⟩ := compile_returns 1 1 d script bell bell_inRange
   exact ⟨s, hs, DMH.dmRunH_eq_stab 1 1 d script bell bell_wf s hs⟩
+
+/-! ### Non-vacuity of the tableau-level hypotheses (`Valid`, `StabReal`, `pivot = none / some`) -/
+
+/-- a deterministic measurement: |00⟩, qubit 0 (hypotheses of `dm_probabilities_exact` second part, `reset_channel_is_reset_z`) -/
+example : (Tab.ket0 2).Valid ∧ (Tab.ket0 2).StabReal ∧ 0 < (Tab.ket0 2).n ∧ (Tab.ket0 2).pivot 0 = none :=
+  ⟨Tab.ket0_valid 2, Hilbert.ket0_stabReal 2, by decide, by decide +kernel⟩
+
+/-- a random measurement: |+⟩|0⟩, qubit 0 (first part of `dm_probabilities_exact`, `forced_outcome_tolerates_rounding`) -/
+example : ((Tab.ket0 2).hGate 0).Valid ∧ ((Tab.ket0 2).hGate 0).StabReal ∧ ((Tab.ket0 2).hGate 0).pivot 0 = some 2 :=
+  ⟨Tab.hGate_valid _ 0 (by decide) (Tab.ket0_valid 2), Hilbert.gate_stabReal _ (Gate.H 0) (Hilbert.ket0_stabReal 2),
+   by decide +kernel⟩
+
+/-- `backends_agree_from` applies to it as an initial state: the Bell circuit from |+⟩|0⟩ -/
+example (d : Det) (script : List Bool) :
+    ∃ s, stabRunFrom ((Tab.ket0 2).hGate 0) 1 d script bell = some s ∧
+      DMH.dmRunFromH (Hilbert.rho 2 (STab.ofTab ((Tab.ket0 2).hGate 0))) 1 d script bell = some (DMH.hstate 2 s) := by
+  obtain ⟨s, hs⟩ := DMH.stabFold_total 1 2 d bell bell_inRange
+    { t := (Tab.ket0 2).hGate 0, writes := [], script := script, rand := [], outs := [] }
+  exact ⟨s, hs, backends_agree_from _ (Tab.hGate_valid _ 0 (by decide) (Tab.ket0_valid 2))
+    (Hilbert.gate_stabReal _ (Gate.H 0) (Hilbert.ket0_stabReal 2)) 1 d script bell bell_wf s hs⟩
 
 /-- the executable density-matrix model returns on it too, with the registers of the stabilizer run (forced 1) -/
 example : ∃ (s : RunState) (m : Mat), stabRun 1 1 .one [] bell = some s ∧
